@@ -315,6 +315,39 @@ func (pr *prover) lowerBound(v ssa.Value, pt point, depth int) (int64, bool) {
 			upd(0)
 		}
 	case *ssa.Phi:
+		// a counter that runs down while another runs up from 0 by the same step: x + y = x's start,
+		// so a guard y + c <= B gives x >= start - B + c
+		if init, ok := decreasingFrom(x); ok {
+			for _, in := range x.Block().Instrs {
+				y, isPhi := in.(*ssa.Phi)
+				if !isPhi {
+					break
+				}
+				if y == x || !countsUpFromZero(y) || len(y.Edges) != len(x.Edges) {
+					continue
+				}
+				// the two step together: on every incoming edge both start or both step
+				paired := true
+				for i := range x.Edges {
+					xs := norm(x.Edges[i]).v == ssa.Value(x)
+					ys := norm(y.Edges[i]).v == ssa.Value(y)
+					if xs != ys {
+						paired = false
+					}
+				}
+				if !paired {
+					continue
+				}
+				for _, f := range fs {
+					if f.x.v == nil || !eqVal(f.x.v, y) {
+						continue
+					}
+					if init.v == nil && f.y.v == nil || init.v != nil && f.y.v != nil && eqVal(init.v, f.y.v) {
+						upd(init.off - f.y.off + f.x.off)
+					}
+				}
+			}
+		}
 		all := true
 		var minL int64
 		first := true
@@ -757,7 +790,7 @@ func runP9s(p *an.Prog, r *an.Result, only func(*ssa.Function) bool) {
 						if lo.v == nil && hi.v == nil {
 							return
 						}
-						construct := describe(p, base) + "[lo:hi]"
+						construct := p9Base(p, base) + "[lo:hi]"
 						check(construct, "0 <= lo", term{nil, 0}, lo)
 						check(construct, "lo <= hi", lo, hi)
 						check(construct, "hi <= len", hi, term{nil, arr.Len()})
@@ -781,7 +814,7 @@ func runP9s(p *an.Prog, r *an.Result, only func(*ssa.Function) bool) {
 				if x.Low == nil && x.High == nil {
 					return
 				}
-				construct := describe(p, base) + "[" + lo.String(p) + ":" + hi.String(p) + "]"
+				construct := p9Base(p, base) + "[" + lo.String(p) + ":" + hi.String(p) + "]"
 				if lo.v != nil || lo.off != 0 {
 					check(construct, "0 <= lo", term{nil, 0}, lo)
 				}
@@ -817,23 +850,23 @@ func runP9s(p *an.Prog, r *an.Result, only func(*ssa.Function) bool) {
 				}
 				if sortContract(p, fn, base, idx) {
 					r.Counts["bound obligations"]++
-					r.OK(name, describe(p, base)+"["+describe(p, idx)+"]: sort.Interface contract", an.InstrPos(in), "Less/Swap of a sort.Interface whose Len is the length of this very field: package sort calls them with 0 <= i, j < Len()")
+					r.OK(name, p9Base(p, base)+"["+describe(p, idx)+"]: sort.Interface contract", an.InstrPos(in), "Less/Swap of a sort.Interface whose Len is the length of this very field: package sort calls them with 0 <= i, j < Len()")
 					return
 				}
 				if sliceFuncContract(fn, base, idx) {
 					r.Counts["bound obligations"]++
-					r.OK(name, describe(p, base)+"["+describe(p, idx)+"]: sort.Slice contract", an.InstrPos(in), "the less function handed to sort.Slice(x, less) indexes x itself: package sort calls it with 0 <= i, j < len(x)")
+					r.OK(name, p9Base(p, base)+"["+describe(p, idx)+"]: sort.Slice contract", an.InstrPos(in), "the less function handed to sort.Slice(x, less) indexes x itself: package sort calls it with 0 <= i, j < len(x)")
 					return
 				}
 				if why := iterContract(p, fn, base, idx); why != "" {
 					r.Counts["bound obligations"]++
-					r.OK(name, describe(p, base)+"["+describe(p, idx)+"]: Len/Index contract", an.InstrPos(in), why)
+					r.OK(name, p9Base(p, base)+"["+describe(p, idx)+"]: Len/Index contract", an.InstrPos(in), why)
 					return
 				}
 				curBase = base
 				it := norm(idx)
 				ln := lenTermOf(base)
-				construct := describe(p, base) + "[" + it.String(p) + "]"
+				construct := p9Base(p, base) + "[" + it.String(p) + "]"
 				if it.v != nil || it.off < 0 {
 					check(construct, "0 <= index", term{nil, 0}, it)
 				}
@@ -1694,4 +1727,65 @@ func atLeastOne(x ssa.Value) bool {
 		}
 	}
 	return false
+}
+
+// decreasingFrom: the phi has one starting edge and otherwise only edges phi-1; the start is returned.
+func decreasingFrom(ph *ssa.Phi) (term, bool) {
+	var init term
+	inits, steps := 0, 0
+	for _, e := range ph.Edges {
+		et := norm(e)
+		switch {
+		case et.v == ssa.Value(ph) && et.off == -1:
+			steps++
+		case et.v == ssa.Value(ph):
+			return term{}, false
+		default:
+			inits++
+			init = et
+		}
+	}
+	return init, inits == 1 && steps >= 1
+}
+
+// countsUpFromZero: the phi starts at 0 and otherwise only takes phi+1.
+func countsUpFromZero(ph *ssa.Phi) bool {
+	inits, steps := 0, 0
+	for _, e := range ph.Edges {
+		et := norm(e)
+		switch {
+		case et.v == nil && et.off == 0:
+			inits++
+		case et.v == ssa.Value(ph) && et.off == 1:
+			steps++
+		default:
+			return false
+		}
+	}
+	return inits == 1 && steps >= 1
+}
+
+// p9Base names the base of an index or slice expression in an obligation key: a parameter, a field
+// or a package-level variable by its name; anything local (a named result, a temporary, a call
+// result, a phi) by its type, so that renaming or dropping a local does not rename the obligation.
+func p9Base(p *an.Prog, v ssa.Value) string {
+	switch x := v.(type) {
+	case *ssa.Parameter:
+		return describe(p, v)
+	case *ssa.UnOp:
+		switch x.X.(type) {
+		case *ssa.FieldAddr, *ssa.Global:
+			return describe(p, v)
+		}
+		if _, isFree := x.X.(*ssa.FreeVar); isFree {
+			return describe(p, v)
+		}
+	case *ssa.Field:
+		return describe(p, v)
+	case *ssa.Call:
+		if _, isB := x.Call.Value.(*ssa.Builtin); !isB {
+			return describe(p, v)
+		}
+	}
+	return an.TypeName(v.Type())
 }
